@@ -133,6 +133,13 @@ func usePipeOuts(pipe *syntax.Pipeline,
 				usedPipes, outputs)
 		}
 	}
+	// What a called pipeline uses inside counts also when nothing refers
+	// to that pipeline's own outputs.
+	for _, callable := range pipe.Callables.Table {
+		if p, ok := callable.(*syntax.Pipeline); ok && p != nil {
+			usedPipes[makeDecId(p)] = p
+		}
+	}
 }
 
 func removeBoundCallRefs(bindings *syntax.BindStms, callables map[string]syntax.Callable,
